@@ -299,6 +299,27 @@ def many_topics(profile, ver, n):
     return s.lines
 
 
+@robust
+def wrap_resume(profile, ver, start, clean_next=0):
+    """publishes in flight whose identifiers straddle the 65535 -> 1 wrap (window 6: QoS 1 and 2, one in the release phase, two held back), lost
+    and resumed on a persistent session: the re-sent packets keep the order of the original publish() calls, not the order of their identifiers"""
+    s = Script(profile)
+    s.do('build a0'); s.do('sethandlers 0 7'); s.do('connect 0 %s 0 %s 0' % (s_tok('wrap'), ver)); s.do('recv 0 20020000'); s.do('setwin 0 6')
+    s.do('setid %d' % start)
+    ids = []
+    for i in range(8):
+        s.do('publish 0 %s b:%02x %d 0' % (s_tok('w/%d' % i), i, (1, 2)[i % 2]))
+        ids.append(int(next(o for o in s.last if o.startswith('ret pending')).split()[3]))
+    s.do('recv 0 %s' % hx(ack(0x50, ids[1])))              # a QoS 2 exchange reaches the release phase
+    s.do('recv 0 %s' % hx(ack(0x50, ids[5])))
+    s.do('lost 0 lostc'); s.do('build a0'); s.do('sethandlers 1 7'); s.do('connect 1 %s 0 %s %d' % (s_tok('wrap'), ver, clean_next)); s.do('recv 1 %s' % hx(connack(0, 1)))
+    s.do('setwin 1 6')
+    for i in ids:
+        s.do('recv 1 %s' % hx(ack(0x40, i))); s.do('recv 1 %s' % hx(ack(0x50, i))); s.do('recv 1 %s' % hx(ack(0x70, i)))
+    s.do('lost 1 done'); s.fire_all(3)
+    return s.lines
+
+
 def for_prop(prop, ctx):
     """the long/large scenarios relevant to a property, as (name, lines)"""
     quick = ctx['tier'] == 'quick'
@@ -340,6 +361,11 @@ def for_prop(prop, ctx):
                 if prop == 'C04' and pattern != 'timeout' and quick:
                     continue
                 add('ka%d-%s' % (k, pattern), big_keepalive(3, '311' if k % 2 else '31', k, pattern))
+    if prop in ('C12', 'C08', 'C09', 'C17', 'C02', 'C10'):
+        for start in (65531, 65533, 65534):
+            add('wrap-resume-%d' % start, wrap_resume(3 if start % 2 else 2, '311' if start != 65533 else '31', start))
+        if prop == 'C12':
+            add('wrap-resume-clean', wrap_resume(3, '311', 65532, clean_next=1))
     if prop in ('C07', 'C01', 'C02'):
         for n in (125, 126, 127, 200):
             add('topics-%d' % n, many_topics(3 if n != 127 else 1, '311' if n % 2 else '31', n))
